@@ -41,6 +41,15 @@ func (s *evStore) GetEvent(h hash.Event) dag.Event {
 	return e
 }
 
+// keepDB is an epoch database that survives Close (like a database on disk): Close is a no-op, Drop
+// deletes the content. The producer hands out one keepDB per epoch number.
+type keepDB struct {
+	kvdb.Store
+}
+
+func (d *keepDB) Close() error { return nil }
+func (d *keepDB) Drop()        { d.Store = memorydb.New() }
+
 type blockRec struct {
 	epoch, frame uint64
 	atropos      hash.Event
@@ -105,7 +114,7 @@ func (in *inst) boot(genesis *pos.Validators) {
 	getEDB := func(epoch idx.Epoch) kvdb.Store {
 		db, ok := in.epochDBs[epoch]
 		if !ok {
-			db = memorydb.New()
+			db = &keepDB{Store: memorydb.New()}
 			in.epochDBs[epoch] = db
 		}
 		return db
@@ -256,6 +265,9 @@ func (r *consRunner) Step(line string) string {
 		in := r.insts[Atou(f[1])]
 		if err := in.lch.Reset(idx.Epoch(Atou(f[2])), parseVals(f[3:])); err != nil {
 			return "err " + err.Error()
+		}
+		for h := range in.input.m { // the instance starts the epoch afresh: it knows no event
+			delete(in.input.m, h)
 		}
 		return in.stateStr()
 	case "ev": // ev <n> e=<epoch> c= s= l= f= p=
@@ -477,6 +489,12 @@ func genConsCase(r *Rand, tier string, w *bufio.Writer) {
 		emit("seal %d %d %s", e, sealFrame[e], valsStr(ids, nws))
 	}
 	restartHeavy := r.Chance(1, 8)
+	// a lagging validator mostly extends only its own chain and occasionally catches up with everybody:
+	// its roots then jump over several frames (multi-frame roots)
+	lagger := uint64(0)
+	if r.Chance(1, 2) {
+		lagger = ids[r.Intn(nv)]
+	}
 	ninst := 2 + r.Intn(2)
 	for k := 0; k < ninst; k++ {
 		emit("inst %d %d", k, (k+r.Intn(4))%4)
@@ -577,6 +595,13 @@ func genConsCase(r *Rand, tier string, w *bufio.Writer) {
 		np := r.Intn(nv + 1)
 		if r.Chance(1, 3) {
 			np = nv
+		}
+		if creator == lagger && selfParent != nil {
+			if r.Chance(4, 5) {
+				np = 0
+			} else {
+				np = nv
+			}
 		}
 		for _, oi := range r.Perm(nv) {
 			if np == 0 {
@@ -690,6 +715,23 @@ func genConsCase(r *Rand, tier string, w *bufio.Writer) {
 		}
 		if r.Chance(1, 30) {
 			emit("state %d", r.Intn(ninst))
+		}
+		// Reset of a non-builder instance to the builder's current epoch and validator set (C09): it starts the
+		// epoch afresh (also when it was already in that epoch: the old epoch DB must be dropped) and
+		// receives the epoch's events again
+		if ninst > 1 && r.Chance(1, 40) {
+			k := 1 + r.Intn(ninst-1)
+			st := emit("state 0")
+			if i := strings.Index(st, "vals="); i >= 0 && epochOf(st) == curEpoch {
+				emit("reset %d %d %s", k, curEpoch, strings.ReplaceAll(st[i+5:], ",", " "))
+				instEpoch[k] = curEpoch
+				queue[k] = nil
+				deferred[k] = nil
+				for _, e := range all {
+					queue[k] = append(queue[k], e.n)
+					delete(done[k], e.n)
+				}
+			}
 		}
 		// the builder sealed its epoch while processing n: the next epoch starts with an empty DAG
 		if ep := epochOf(res); ep > curEpoch {
